@@ -36,6 +36,9 @@ ASSUMPTIONS = [
     "rechunk 'requested chunks' for int/-1/None/'auto'/dict targets are what normalize_chunks returns for the resolved target "
     "(None / missing dict keys keep the source chunks, as rechunk documents)",
     "method='p2p' cannot run (distributed absent): only its clean failure is checked",
+    "explicit zero-size chunks (sources, targets, previous_chunks) are a ~10% stratum of the random sub-checks with their own sig "
+    "flags; several zero-size chunks on a zero-length axis, e.g. (0, 0), are not explored (doubly degenerate: rechunk "
+    "deliberately returns an all-empty array untouched, whatever the target)",
 ]
 TECHNIQUE = "exhaustive enumeration of small chunk specs / source x target chunkings plus Hypothesis-generated specs; differential against NumPy values and the sum/positivity/byte-limit oracle"
 
